@@ -38,7 +38,8 @@ REQUIRED_REACH = ["mixed-dirichlet-neumann", "pure-dirichlet", "boundary-project
                   "neumann-part-as-overlapping-tags", "constrained-by-enforce-then-condense",
                   "two-splits-on-one-assembled-system", "complex-valued-projection", "complex-valued-boundary-projection",
                   "solution-of-small-magnitude", "straight-second-order-mesh", "projection-of-callable", "model-forms:poisson",
-                  "model-forms:lame-parameters"]
+                  "model-forms:lame-parameters", "model-forms:plane-stress", "mesh-in-other-length-units",
+                  "projection-on-mesh-in-other-length-units"]
 
 # (record name, degree of the manufactured solution)
 COMPLETE = {
@@ -153,6 +154,18 @@ def scalar_patch(ctx, k, kind):
         raise Skip("mesh-too-large")
     d = mc.dim
     u = rand_poly(rng, d, deg)
+    # the same problem with the mesh given in other length units (millimetre parts in metres, kilometres in metres): the
+    # exact solution is the same polynomial of x / unit (exact: the unit is a power of two), the reaction coefficient scales
+    # by 1/unit^2; dealt out in turn (k also selects element and problem, so the factor is divided out first)
+    uexp = (0, -14, 0, 12, -24)[(k // (2 * len(recs))) % 5]
+    unit = 2.0 ** uexp
+    if uexp:
+        from dataclasses import replace as _replace
+        mesh = _replace(mesh, doflocs=np.asarray(mesh.doflocs) * unit)
+        mc = G.MeshCase(mesh, mc.kind, mc.order, dict(mc.desc, unit=f"2^{uexp}"), affine_cells=mc.affine_cells, straight=mc.straight,
+                        planar_faces=mc.planar_faces)
+        u = {e: cf * Fraction(2) ** (-uexp * sum(e)) for e, cf in u.items()}
+        ctx.reached("mesh-in-other-length-units")
     mag = 1.0
     if opt_small:
         # the same problem in small units of the unknown (nanometre displacements in metres): linear, hence scale free
@@ -160,7 +173,7 @@ def scalar_patch(ctx, k, kind):
         u = X.pscale(u, Fraction(mag))
         ctx.reached("solution-of-small-magnitude")
     reaction = (k // len(recs)) % 2 == 1
-    c = float(rng.integers(1, 5)) if reaction else 0.0
+    c = float(rng.integers(1, 5)) / unit ** 2 if reaction else 0.0
     f = X.padd(X.pscale(laplacian(u, d), -1), X.pscale(u, Fraction(c)))
     gradu = [X.pdiff(u, i) for i in range(d)]
     u_fn, f_fn = np_poly(u), np_poly(f)
@@ -225,7 +238,7 @@ def scalar_patch(ctx, k, kind):
                 xall = skfem.FacetBasis(mesh, rec.make(), intorder=min(order, {"tet": 19, "tri": 12}.get(kind, order))).project(lambda x: u_fn(x))
             x1 = skfem.solve(*skfem.enforce(A, b0, x=xall, D=Dall))
             e1, n1 = l2_error(skfem.CellBasis(mesh, rec.make(), intorder=order), x1, u_fn)
-            ctx.check(monitor, e1 <= 1e-7 * (n1 + 1e-300) + 1e-12 * mag, mech=f"patch-test:{name.split('(')[0]}:first-of-two-splits",
+            ctx.check(monitor, e1 <= 1e-7 * (n1 + 1e-300) + 1e-12 * mag * unit ** (d / 2), mech=f"patch-test:{name.split('(')[0]}:first-of-two-splits",
                       error=e1, norm=n1, **tag)
             ctx.reached("two-splits-on-one-assembled-system")
         if opt_enf:
@@ -273,7 +286,7 @@ def scalar_patch(ctx, k, kind):
                   mech="enforce-and-condense-solutions-differ", **tag)
     bhi = skfem.CellBasis(mesh, rec.make(), intorder=order)
     err, nrm = l2_error(bhi, xh, u_fn)
-    ctx.check(monitor, err <= 1e-8 * (nrm + 1e-300) + 1e-12 * mag, mech=f"patch-test:{name.split('(')[0]}:{'rd' if reaction else 'poisson'}",
+    ctx.check(monitor, err <= 1e-8 * (nrm + 1e-300) + 1e-12 * mag * unit ** (d / 2), mech=f"patch-test:{name.split('(')[0]}:{'rd' if reaction else 'poisson'}",
               error=err, norm=nrm, **tag)
     if (split == "mixed" or has_interior_vertex(mesh)):
         ctx.nontrivial(tag["problem"], name, type(mesh).__name__, split, "general" if general else "affine")
@@ -289,11 +302,40 @@ def elasticity_patch(ctx, k, kind):
              "tet": [("ElementTetP1", 1), ("ElementTetP2", 2)], "hex": [("ElementHex1", 1), ("ElementHex2", 2)]}[kind]
     name, deg = names[k % len(names)]
     mc = affine_mesh(ctx, rng, kind, k)
+    cap = ctx.scale(60, 200)
+    for attempt in range(6):
+        if mc.mesh.t.shape[1] <= cap:
+            break
+        mc = affine_mesh(ctx, ctx.rng("smaller-mesh", attempt), kind, k)
     mesh = mc.mesh
-    if mesh.t.shape[1] > ctx.scale(60, 200):
-        raise Skip("mesh-too-large")
+    if mesh.t.shape[1] > cap:
+        # a connected-or-not subset of the cells of an affine mesh is an affine mesh
+        S = np.sort(rng.choice(mesh.t.shape[1], size=cap, replace=False))
+        p_, t_ = G.clean(np.asarray(mesh.p), np.asarray(mesh.t)[:, S].astype(np.int64))
+        mesh = type(mesh)(p_, t_)
+        mc = G.MeshCase(mesh, kind, 1, dict(mc.desc, subset=int(cap)), affine_cells=mc.affine_cells, planar_faces=mc.planar_faces)
+        ctx.reached("elasticity-on-cell-subset-mesh")
     d = mc.dim
     lam, mu = float(rng.integers(1, 4)), float(rng.integers(1, 4))
+    # material given the way the library's model helpers take it (dealt out in turn, not drawn): integers as they are;
+    # Young's modulus and Poisson ratio through lame_parameters; in 2-D the same through plane_stress (thin plate).
+    # The exact solution, its body force and tractions are built from the closed forms of the same material.
+    material = ("plain", "lame-parameters", "plane-stress")[(k // len(names)) % 3]
+    if material == "plane-stress" and d != 2:
+        material = "lame-parameters"
+    lam_asm, mu_asm = lam, mu
+    if material != "plain":
+        from skfem.models import elasticity as EM
+        Eym, nu = float(rng.integers(2, 9)), float(rng.integers(1, 4)) / 8.0
+        if material == "lame-parameters":
+            lam, mu = Eym * nu / ((1 + nu) * (1 - 2 * nu)), Eym / (2 * (1 + nu))
+            lam_asm, mu_asm = EM.lame_parameters(Eym, nu)
+        else:
+            lam, mu = Eym * nu / (1 - nu * nu), Eym / (2 * (1 + nu))
+            lam_asm, mu_asm = EM.lame_parameters(*EM.plane_stress(Eym, nu))
+        ctx.close("patch-test-elasticity", np.array([lam_asm, mu_asm], dtype=float), np.array([lam, mu]), rtol=1e-13,
+                  scale=max(lam, mu), mech=f"{material}-closed-form", E=Eym, nu=nu)
+        ctx.reached("model-forms:" + material)
     U = [rand_poly(rng, d, deg) for _ in range(d)]
     # strain, stress, body force by exact polynomial calculus
     Gd = [[X.pdiff(U[i], j) for j in range(d)] for i in range(d)]
@@ -316,17 +358,7 @@ def elasticity_patch(ctx, k, kind):
     order = max(2 * elem.maxdeg, 2 * deg + 2)
     order = min(order, {"tri": 19, "tet": 8}.get(kind, order))
     basis = skfem.CellBasis(mesh, elem, intorder=order)
-    if rng.random() < 0.5:
-        # Lame parameters from Young's modulus and Poisson ratio through the library's helper; the exact solution is
-        # built from the closed form of the same pair
-        from skfem.models.elasticity import lame_parameters
-        Eym, nu = float(rng.integers(2, 9)), float(rng.integers(1, 4)) / 10.0
-        lam_l, mu_l = lame_parameters(Eym, nu)
-        lam_c, mu_c = Eym * nu / ((1 + nu) * (1 - 2 * nu)), Eym / (2 * (1 + nu))
-        ctx.close("patch-test-elasticity", np.array([lam_l, mu_l]), np.array([lam_c, mu_c]), rtol=1e-13, scale=max(lam_c, mu_c),
-                  mech="lame-parameters-closed-form", E=Eym, nu=nu)
-        ctx.reached("model-forms:lame-parameters")
-    A = linear_elasticity(lam, mu).assemble(basis)
+    A = linear_elasticity(float(lam_asm), float(mu_asm)).assemble(basis)
     b = skfem.LinearForm(lambda v, w: sum(f_fns[i](w.x) * v[i] for i in range(d))).assemble(basis)
     Dfac, Nfac = boundary_split(rng, mesh, allow_empty_dirichlet=False)
     if Nfac.size >= 2 and rng.random() < 0.4:
@@ -393,6 +425,14 @@ def projection(ctx, k, kind):
     if curved:
         mc = G.second_order(rng, mc, curved=True)
     mesh = mc.mesh
+    # the same mesh in other length units (exact power of two): "returns that function on every mesh"
+    uexp = (0, -14, 0, 12, -24)[rnd % 5]
+    if uexp:
+        from dataclasses import replace as _replace
+        mesh = _replace(mesh, doflocs=np.asarray(mesh.doflocs) * 2.0 ** uexp)
+        mc = G.MeshCase(mesh, mc.kind, mc.order, dict(mc.desc, unit=f"2^{uexp}"), affine_cells=mc.affine_cells, straight=mc.straight,
+                        planar_faces=mc.planar_faces)
+        ctx.reached("projection-on-mesh-in-other-length-units")
     elem = rec.make()
     basis = skfem.CellBasis(mesh, elem)
     if rec.name.startswith("Vector("):
